@@ -143,6 +143,9 @@ func runC07(e *Env) {
 	var curInvokeNs int64
 	readerDone := false
 	check := func(i int, got []byte, what string) {
+		if closeInvokedSeq >= 0 {
+			return // a local Close releases the buffers: zero-copy results are void from then on
+		}
 		if bad := checkStreamData(data, consumed, got); bad >= 0 {
 			e.Fail("read-content", "content/"+calls[i].op, "call %d %s: byte %d of result differs from stream position %d (%s)", i, calls[i].op, bad, consumed+bad, what)
 		}
@@ -274,7 +277,11 @@ func runC07(e *Env) {
 					check(i, got, "until-eof")
 					consumed += len(got)
 				} else if b1 >= n {
-					e.Fail("eof-with-data", "eof/with-data/"+c.op, "call %d %s(%d) returned ErrEOF although %d bytes are buffered (all of them arrived before the close)", i, c.op, n, b1)
+					fn := "waitRead"
+					if c.cfg == "timeout" || c.cfg == "deadline" {
+						fn = "waitReadWithTimeout"
+					}
+					e.Fail("eof-with-data", "eof/with-data/"+fn, "call %d %s(%d) returned ErrEOF although %d bytes are buffered (all of them arrived before the close)", i, c.op, n, b1)
 				}
 			case isErr(err, ErrConnClosed):
 				if closeInvokedSeq < 0 {
